@@ -368,13 +368,18 @@ void Executor::op_file(const Op& op, TaskCtx& t) {
     for (int j = 0; j < (int)cols.size(); j++) if (!same(cols[j], c2[j], a.lower(j), a.upper(j))) { viol("C14", "basis_roundtrip_differs", "column " + std::to_string(j) + " status " + std::to_string(cols[j]) + " restored as " + std::to_string(c2[j]), ctx); return; }
     if (sameRows) for (int i = 0; i < (int)rows.size(); i++) if (!same(rows[i], r2[i], a.lhs(i), a.rhs(i))) { viol("C14", "basis_roundtrip_differs", "row " + std::to_string(i) + " status " + std::to_string(rows[i]) + " restored as " + std::to_string(r2[i]), ctx); return; }
     // the new solver started from the restored basis reaches the same status and value
-    if (stA == sut::ST_OPTIMAL || stA == sut::ST_INFEASIBLE || stA == sut::ST_UNBOUNDED) {
+    if (a.numCols() == 0) count("empty_lp_not_judged");
+    else if (stA == sut::ST_OPTIMAL || stA == sut::ST_INFEASIBLE || stA == sut::ST_UNBOUNDED) {
       uint32_t savemask = t.bug_mask; t.bug_mask = 0;
       int stB = b->optimize(nullptr);
       t.bug_mask = savemask;
-      if (stB != stA && !(stA != sut::ST_OPTIMAL && stB != sut::ST_OPTIMAL && (stB == sut::ST_INFEASIBLE || stB == sut::ST_UNBOUNDED || stB == sut::ST_INForUNBD))) {
+      bool bothFinal = (stB == sut::ST_OPTIMAL || stB == sut::ST_INFEASIBLE || stB == sut::ST_UNBOUNDED || stB == sut::ST_INForUNBD);
+      bool fragileLP = false;
+      if (stB != stA && bothFinal && !o->ever_rational) { const model::RefResult& rf = ref_of(*o, false); fragileLP = (rf.status == model::REF_OPTIMAL && (rf.feas_fragile || rf.bounded_fragile)) || (rf.status != model::REF_OPTIMAL && rf.status != model::REF_UNKNOWN && rf.margin < 1e-4); }
+      if (fragileLP) count("fragile_skipped");
+      else if (stB != stA && !(stA != sut::ST_OPTIMAL && stB != sut::ST_OPTIMAL && (stB == sut::ST_INFEASIBLE || stB == sut::ST_UNBOUNDED || stB == sut::ST_INForUNBD))) {
         ctx["status"] = sut::status_name(stB); ctx["expected"] = sut::status_name(stA);
-        viol("C14", "restored_solve_status", std::string("solver started from the restored basis returns ") + sut::status_name(stB) + ", the saved solver had " + sut::status_name(stA), ctx); return; }
+        viol("C14", (std::string("restored_solve_status:") + sut::status_name(stB)).c_str(), std::string("solver started from the restored basis returns ") + sut::status_name(stB) + ", the saved solver had " + sut::status_name(stA), ctx); return; }
       double objB = stB == sut::ST_OPTIMAL ? b->objValue() : 0;
       if (state && b->getInt(P::i("objsense")) != a.getInt(P::i("objsense"))) objB = -(objB - b->getReal(P::r("obj_offset"))) + a.getReal(P::r("obj_offset"));   // documented MPS sense inversion
       if (stA == sut::ST_OPTIMAL && fabs(objB - objA) > 1e-6 * (1 + fabs(objA))) { viol("C14", "restored_solve_value", "objective " + dstr(objB) + " vs saved " + dstr(objA), ctx); return; }
